@@ -458,13 +458,33 @@ fn in_sandbox(p: &str) -> bool {
 
 /// Path shown to the controller: relative to the sandbox root.
 fn rel(p: &str) -> String {
-    if p.starts_with('/') {
+    let t: &str = if p.starts_with('/') {
         let r = root();
-        let t = &p[r.len().min(p.len())..];
-        t.trim_start_matches('/').to_string()
+        p[r.len().min(p.len())..].trim_start_matches('/')
     } else {
-        p.trim_start_matches("./").to_string()
+        p
+    };
+    // lexical normalisation: "./x", "a/./x", "a/../x" (the sandbox has no symlinked
+    // directories except the aliases the policies know about)
+    let mut out: Vec<&str> = Vec::new();
+    for c in t.split('/') {
+        match c {
+            "" | "." => {}
+            ".." => {
+                if out.last().map(|l| *l != "..").unwrap_or(false) {
+                    out.pop();
+                } else {
+                    out.push("..");
+                }
+            }
+            c => out.push(c),
+        }
     }
+    // alias used by C19: the run directory reached through a symlinked directory
+    if out.first() == Some(&"r_link") {
+        out[0] = "r";
+    }
+    out.join("/")
 }
 
 fn mkop(kind: OpKind, path: String, path2: String, fd: c_int, len: usize, flags: c_int) -> Op {
